@@ -112,8 +112,13 @@ fn wake_recorder(_q: &WakerQueue, interest: WakerInterest) {
     core::mem::forget(interest);
 }
 
+/// `std::thread::panicking()` is an input of a destructor like any other (a guard dropped while the worker unwinds from a
+/// panicking service must still release its slot and notify the accept thread)
+fn any_panicking() -> bool { kani::any() }
+
 #[kani::proof]
 #[kani::stub(WakerQueue::wake, wake_recorder)]
+#[kani::stub(std::thread::panicking, any_panicking)]
 fn guard_drop_decrements_once_and_wakes_iff_was_at_limit() {
     let (c, c0) = any_counter();
     kani::assume(c0 >= 1);
